@@ -21,6 +21,7 @@ theorem MExpr.leavesOk_base (e : MExpr) (h : e.LeavesOk) : e.base.LeavesOk := by
   | reverse e _ _ ih => exact ih h
   | map e ih => exact ih h
   | viaTensor e ih => exact ih h
+  | swapped e ih => exact ih h
 
 /-- every cell of a composition is a cell of the source at its bottom -/
 theorem MExpr.cell_in_base (e : MExpr) (i j o : Nat) (h : e.cell i j = some o) :
@@ -41,6 +42,7 @@ theorem MExpr.cell_in_base (e : MExpr) (i j o : Nat) (h : e.cell i j = some o) :
     · rw [if_neg hin] at h; simp at h
   | map e ih => exact ih i j h
   | viaTensor e ih => exact ih i j h
+  | swapped e ih => exact ih j i h
 
 /-- `a·n + b` with `b < n` determines `a` and `b` -/
 theorem grid_index_inj (n a b a' b' : Nat) (hb : b < n) (hb' : b' < n)
@@ -137,6 +139,9 @@ theorem MExpr.cell_injective (e : MExpr) (hle : e.LeavesOk) (i j i' j' o : Nat)
     · rw [if_neg hin] at h; simp at h
   | map e ih => exact ih hle i j i' j' o h h'
   | viaTensor e ih => exact ih hle i j i' j' o h h'
+  | swapped e ih =>
+    have := ih hle j i j' i' o h h'
+    exact ⟨this.2, this.1⟩
 
 /-- the model's part at grid position `(kr, kc)`: `partition` succeeds, the position exists and
     the part's checked getter answers the specified cell -/
@@ -245,5 +250,6 @@ theorem MExpr.cell_lt (e : MExpr) (hle : e.LeavesOk) (i j o : Nat) (h : e.cell i
     · rw [if_neg hin] at h; simp at h
   | map e ih => exact ih hle i j h
   | viaTensor e ih => exact ih hle i j h
+  | swapped e ih => exact ih hle j i h
 
 end EasyMl.MatrixView
